@@ -40,10 +40,26 @@ fn pipeline(kind: &str, chars: &PathBuf, missp: &PathBuf) -> TrainPipelineConfig
         "chain" => PreprocessingFnConfig::Chain(vec![spell, ws]),
         _ => PreprocessingFnConfig::None,
     };
+    // per-source preprocessing (selected by the file index carried with every item)
+    let preprocessing = if kind == "persource" {
+        PreprocessingConfig::PerSource(vec![
+            PreprocessingFnConfig::WhitespaceCorruption(Part::Input, 0.3, 0.3, true),
+            PreprocessingFnConfig::SpellingCorruption(Part::Input, 0.8, true, SpellingCorruptionMode::Artificial(0.5, 2.0, Some(chars.clone()))),
+            PreprocessingFnConfig::None,
+        ])
+    } else {
+        PreprocessingConfig::Global(pre)
+    };
+    // seeded token masking as postprocessing
+    let postprocessing = if kind == "mask" {
+        PostprocessingConfig::Global(PostprocessingFnConfig::TokenMasking(tok_cfg(), 0.3, 1, 0.5, "<pad>".to_string()))
+    } else {
+        PostprocessingConfig::Global(PostprocessingFnConfig::None)
+    };
     TrainPipelineConfig {
-        preprocessing: PreprocessingConfig::Global(pre),
+        preprocessing,
         task: TrainTaskConfig::Generation(false, tok_cfg(), false, Some(" >> ".to_string())),
-        postprocessing: PostprocessingConfig::Global(PostprocessingFnConfig::None),
+        postprocessing,
     }
 }
 
@@ -172,7 +188,7 @@ pub fn gen(seed: u64, n: usize) -> Vec<Value> {
                 "ff": if rng.random_bool(0.5) { rng.random_range(0..=total.min(6)) } else { 0 }, "shuffle": shuffle, "sort": rng.random_bool(0.3),
                 "prefetch": rng.random_range(0..=3), "batch_limit": bl, "ltype": if rng.random_bool(0.5) { "count" } else { "padded" }});
             let runs = variants(&mut rng, &base, 2);
-            let pipeline = ["none", "ws", "spell", "real", "mixed", "switch", "chain"][rng.random_range(0..7)];
+            let pipeline = ["none", "ws", "spell", "real", "mixed", "switch", "chain", "mask", "persource"][rng.random_range(0..9)];
             json!({"lens": lens, "strategy": strategy, "seed": rng.random_range(0..1000u64), "epoch": rng.random_range(0..3), "pipeline": pipeline, "runs": runs})
         })
         .collect()
